@@ -198,6 +198,8 @@ func c05(r *core.Run) {
 
 	c05SelfConf(r)
 	c05IDFresh(r)
+	c05EntropyAgree(r)
+	c05PackArgs(r)
 }
 
 // byte range of a Slice expression with constant bounds ("lo:hi", hi empty for open)
@@ -665,4 +667,229 @@ func c05IDFresh(r *core.Run) {
 		})
 	}
 	r.Floor("C05.IDFRESH", "generated signature IDs in the index command", n, 2)
+}
+
+// topoFieldPath: v loads a field (possibly of a nested struct) of a FunctionTopology; returns the dotted path.
+func topoFieldPath(v ssa.Value) (string, bool) {
+	u, ok := core.Unwrap(v).(*ssa.UnOp)
+	if !ok || u.Op != token.MUL {
+		return "", false
+	}
+	var names []string
+	cur := u.X
+	for {
+		fa, isFA := cur.(*ssa.FieldAddr)
+		if !isFA {
+			return "", false
+		}
+		names = append([]string{core.FieldName(fa.X.Type(), fa.Field)}, names...)
+		if strings.HasSuffix(core.Deref(fa.X.Type()).String(), "topology.FunctionTopology") {
+			return strings.Join(names, "."), true
+		}
+		cur = fa.X
+	}
+}
+
+// c05EntropyAgree: the entropy pre-filter of both backends and the matcher compare a signature's stored entropy
+// score with one figure of the scanned function's topology. The figure stored at index time must be that same
+// figure, or a function never passes the pre-filter of its own signature.
+func c05EntropyAgree(r *core.Run) {
+	p := r.P
+	produced := map[string]token.Pos{}
+	for _, fn := range p.FuncsIn("pkg/detection") {
+		core.InstrsOf(fn, func(in ssa.Instruction) {
+			st, ok := in.(*ssa.Store)
+			if !ok {
+				return
+			}
+			fa, ok := st.Addr.(*ssa.FieldAddr)
+			if !ok || !core.IsNamed(fa.X.Type(), detPath(p), "Signature") || core.FieldName(fa.X.Type(), fa.Field) != "EntropyScore" {
+				return
+			}
+			for _, o := range core.Origins(st.Val) {
+				if path, isT := topoFieldPath(o); isT {
+					produced[path] = st.Pos()
+				}
+			}
+		})
+	}
+	consumed := map[string]int{}
+	isSigScore := func(v ssa.Value) bool {
+		v = core.Unwrap(v)
+		if base, ok := core.FieldLoad(v, "EntropyScore"); ok && strings.HasSuffix(core.Deref(base.Type()).String(), "detection.Signature") {
+			return true
+		}
+		// the score unpacked from an index value
+		if ex, isEx := v.(*ssa.Extract); isEx {
+			if c, isCall := ex.Tuple.(*ssa.Call); isCall {
+				if g := core.StaticCallee(&c.Call); g != nil && p.IsProdFunc(g) && isFloat64(ex.Type()) {
+					return true
+				}
+			}
+		}
+		if fl, isF := v.(*ssa.Field); isF && isFloat64(fl.Type()) {
+			return true
+		}
+		return false
+	}
+	for _, fn := range append(scannerFuncs(p), p.FuncsIn("pkg/detection")...) {
+		core.InstrsOf(fn, func(in ssa.Instruction) {
+			var a, b ssa.Value
+			switch x := in.(type) {
+			case *ssa.BinOp:
+				if x.Op != token.SUB {
+					return
+				}
+				a, b = x.X, x.Y
+			case *ssa.Call:
+				g := core.StaticCallee(&x.Call)
+				if g == nil || !p.IsProdFunc(g) || len(x.Call.Args) != 2 || !isFloat64(x.Call.Args[0].Type()) || !isFloat64(x.Call.Args[1].Type()) {
+					return
+				}
+				a, b = x.Call.Args[0], x.Call.Args[1]
+			default:
+				return
+			}
+			for _, pair := range [][2]ssa.Value{{a, b}, {b, a}} {
+				if path, isT := topoFieldPath(pair[0]); isT && isSigScore(pair[1]) {
+					consumed[path]++
+				}
+			}
+		})
+	}
+	var cs []string
+	for c := range consumed {
+		cs = append(cs, c)
+	}
+	sortStrings(cs)
+	r.Floor("C05.ENTROPY", "comparisons of a stored entropy score with a figure of the scanned topology", len(consumed), 1)
+	r.Check(len(cs) <= 1, "C05.ENTROPY", "scan#one-figure", token.NoPos, "every comparison uses the topology figure "+strings.Join(cs, ","), "the backends / the matcher compare the stored score with different topology figures: "+strings.Join(cs, ", "))
+	for path, pos := range produced {
+		r.Check(consumed[path] > 0, "C05.ENTROPY", "index#stores("+path+")", pos, "the stored entropy score is the figure the scans compare with ("+path+")", "the entropy score stored at index time is the topology's "+path+", but the scans compare it with "+strings.Join(cs, ",")+": a function with string literals of differing entropy fails the pre-filter of its own signature")
+	}
+	r.Floor("C05.ENTROPY", "assignments of a signature's entropy score from a topology", len(produced), 1)
+}
+
+// c05PackArgs: the packed index value carries (id, score, tolerance) of ONE signature, each in its slot. The slot
+// the scans read the score from (the decoder result they compare with the topology's entropy figure) must be fed,
+// at every call of the encoder, with the signature field the other backend and the matcher use as the score; the
+// remaining float slot with another field of the same signature, the same one at every site (sibling agreement
+// between the single add, the batch add and the rebuild).
+func c05PackArgs(r *core.Run) {
+	p := r.P
+	var enc, dec *ssa.Function
+	for _, fn := range p.FuncsIn(storeRel) {
+		core.InstrsOf(fn, func(in ssa.Instruction) {
+			if core.IsCallTo(in, "(encoding/binary.littleEndian).PutUint64") {
+				enc = fn
+			}
+			if core.IsCallTo(in, "(encoding/binary.littleEndian).Uint64") {
+				dec = fn
+			}
+		})
+	}
+	if enc == nil || dec == nil {
+		return // reported by C05.KEYAGREE
+	}
+	// the score slot: which decoder result is compared with a figure of the scanned topology
+	scoreSlot := -1
+	for _, fn := range scannerFuncs(p) {
+		core.InstrsOf(fn, func(in ssa.Instruction) {
+			b, ok := in.(*ssa.BinOp)
+			if !ok || b.Op != token.SUB {
+				return
+			}
+			for _, pair := range [][2]ssa.Value{{b.X, b.Y}, {b.Y, b.X}} {
+				if _, isT := topoFieldPath(pair[0]); !isT {
+					continue
+				}
+				switch v := core.Unwrap(pair[1]).(type) {
+				case *ssa.Extract:
+					if c, isCall := v.Tuple.(*ssa.Call); isCall && core.StaticCallee(&c.Call) == dec {
+						scoreSlot = v.Index
+					}
+				case *ssa.Field:
+					if c, isCall := v.X.(*ssa.Call); isCall && core.StaticCallee(&c.Call) == dec {
+						scoreSlot = v.Field
+					}
+				case *ssa.UnOp:
+					if fa, isFA := v.X.(*ssa.FieldAddr); isFA {
+						for _, o := range core.Origins(core.LoadOf(fa.X)) {
+							if c, isCall := o.(*ssa.Call); isCall && core.StaticCallee(&c.Call) == dec {
+								scoreSlot = fa.Field
+							}
+						}
+					}
+				}
+			}
+		})
+	}
+	// the signature field that is the score for the matcher and the JSON backend
+	scoreField := ""
+	for _, fn := range append(scannerFuncs(p), p.FuncsIn("pkg/detection")...) {
+		core.InstrsOf(fn, func(in ssa.Instruction) {
+			var a, b ssa.Value
+			switch x := in.(type) {
+			case *ssa.BinOp:
+				if x.Op != token.SUB {
+					return
+				}
+				a, b = x.X, x.Y
+			case *ssa.Call:
+				if g := core.StaticCallee(&x.Call); g == nil || !p.IsProdFunc(g) || len(x.Call.Args) != 2 {
+					return
+				}
+				a, b = x.Call.Args[0], x.Call.Args[1]
+			default:
+				return
+			}
+			for _, pair := range [][2]ssa.Value{{a, b}, {b, a}} {
+				if _, isT := topoFieldPath(pair[0]); !isT {
+					continue
+				}
+				if base, name, ok := fieldLoadBy(core.Unwrap(pair[1]), isFloat64); ok && strings.HasSuffix(core.Deref(base.Type()).String(), "detection.Signature") {
+					scoreField = name
+				}
+			}
+		})
+	}
+	if !r.Floor("C05.PACKARGS", "score slot of the packed value and score field of a signature", map[bool]int{true: 1, false: 0}[scoreSlot >= 0 && scoreField != ""], 1) {
+		return
+	}
+	n := 0
+	others := map[string]bool{}
+	for _, fn := range p.FuncsIn(storeRel) {
+		core.InstrsOf(fn, func(in ssa.Instruction) {
+			c := core.CallOf(in)
+			if c == nil || core.StaticCallee(c) != enc || scoreSlot >= len(c.Args) {
+				return
+			}
+			n++
+			fnm := core.FuncName(fn)
+			base, name, ok := fieldLoadBy(core.Unwrap(c.Args[scoreSlot]), isFloat64)
+			r.Check(ok && name == scoreField && strings.HasSuffix(core.Deref(base.Type()).String(), "detection.Signature"), "C05.PACKARGS", fnm+"#score-slot", in.Pos(),
+				"the score slot of the packed index value is fed with the signature's "+scoreField,
+				"the score slot of the packed index value is fed with "+core.Canon(c.Args[scoreSlot])+", not with the signature's "+scoreField+": the entropy pre-filter of the scans then compares the scanned function's entropy with the wrong number and drops the signature's own function")
+			for i, a := range c.Args {
+				if i == scoreSlot || !isFloat64(a.Type()) {
+					continue
+				}
+				b2, n2, ok2 := fieldLoadBy(core.Unwrap(a), isFloat64)
+				sameSig := ok && ok2 && core.Canon(b2) == core.Canon(base)
+				r.Check(ok2 && n2 != scoreField && sameSig, "C05.PACKARGS", fnm+fmt.Sprintf("#slot%d", i), in.Pos(),
+					"the other float slot is fed with another field of the same signature ("+n2+")",
+					"the other float slot of the packed index value is fed with "+core.Canon(a)+": not a second field of the same signature")
+				if ok2 {
+					others[n2] = true
+				}
+			}
+		})
+	}
+	var os []string
+	for o := range others {
+		os = append(os, o)
+	}
+	sortStrings(os)
+	r.Check(len(os) <= 1, "C05.PACKARGS", "encoder-call-sites#agree", token.NoPos, "all writers of the packed index value agree on its fields", "the writers of the packed index value disagree on what goes into the tolerance slot: "+strings.Join(os, ", "))
+	r.Floor("C05.PACKARGS", "calls of the packed-value encoder", n, 3)
 }
